@@ -200,6 +200,54 @@ def judge_darksky(q, single=True):
     return out, sig
 
 
+REUSE_STEPS = [
+    ("date", lambda c: setattr(c.simulation.target, "source_date", "2022-11-08T03:00:00")),
+    ("ra_dec", lambda c: (setattr(c.simulation.target, "source_RA", 4.0), setattr(c.simulation.target, "source_DEC", 0.4))),
+    ("position", lambda c: (setattr(c.detector.initial_position, "latitude", 0.6), setattr(c.detector.initial_position, "longitude", -2.0))),
+    ("altitude", lambda c: setattr(c.detector.initial_position, "altitude", 33.0)),
+    ("limb", lambda c: setattr(c.simulation, "angle_from_limb", math.radians(20.0))),
+    ("cuts", lambda c: (setattr(c.detector.sun_moon, "sun_alt_cut", math.radians(5.0)), setattr(c.detector.sun_moon, "moon_min_phase_angle_cut", math.radians(30.0)))),
+    ("obst", lambda c: setattr(c.simulation.target, "source_obst", 7200.5)),
+]
+
+
+def judge_config_reuse(seq):
+    """ONE configuration object, edited in place between the constructions of several target-mode geometries (a scan
+    over dates / sources / sites that re-uses its configuration): every geometry constructed after an edit is the
+    geometry of a fresh configuration holding the same values -- instants, masks, angles, path lengths, dark-sky flags"""
+    from nuspacesim.simulation.geometry.region_geometry import RegionGeomToO
+
+    _iers()
+    N = 24
+
+    def obs(cfg):
+        g = RegionGeomToO(cfg)
+        b, th, L, vt = g(N)
+        dark = np.asarray(g.too_source.sun_moon_cut(g.times), dtype=bool)
+        return tuple(np.asarray(x, dtype=np.float64).tobytes() for x in (b, th, L, np.asarray(vt.jd1), np.asarray(vt.jd2), np.asarray(g.times.jd1), np.asarray(g.times.jd2))) + (dark.tobytes(),)
+
+    with warnings.catch_warnings():
+        warnings.simplefilter("ignore")
+        # pass 1: what fresh configurations give
+        want = []
+        for k in range(len(seq) + 1):
+            c = mk(1.0, -0.3, "2022-06-02T01:00:00", 86400.0, N, 0.1, 0.2, 525.0, 7.0)
+            for si in seq[:k]:
+                REUSE_STEPS[si][1](c)
+            want.append(obs(type(c)(**c.model_dump())))
+        # pass 2: the one live configuration
+        c = mk(1.0, -0.3, "2022-06-02T01:00:00", 86400.0, N, 0.1, 0.2, 525.0, 7.0)
+        for k in range(len(seq) + 1):
+            if k:
+                REUSE_STEPS[seq[k - 1]][1](c)
+            got = obs(c)
+            if got != want[k]:
+                names = ["beta", "theta", "path length", "valid times", "valid times", "instants", "instants", "dark-sky flags"]
+                bad = sorted(set(n for n, a, b in zip(names, got, want[k]) if a != b))
+                return [("geometry_of_the_configuration_in_force", f"after in-place edits {[REUSE_STEPS[i][0] for i in seq[:k]]} of one configuration object: the geometry of a fresh configuration with these values", f"differs in {bad}")]
+    return []
+
+
 DETECTORS = [(0.0, 0.0, 525.0), (math.pi / 4, math.radians(100), 33.0), (-math.pi / 3, math.radians(-120), 400.0)]
 
 
@@ -423,6 +471,12 @@ def run(ctx):
         for c, e, o in v:
             ctx.violation(c, {"kind": "dark", "q": q}, e, o)
     ctx.cov["darksky_cases"] = nds
+    seqs = [(i,) for i in range(len(REUSE_STEPS))] + ([(i, j) for i in range(len(REUSE_STEPS)) for j in range(len(REUSE_STEPS)) if i != j] if tier == "thorough" else [(0, 2), (3, 1), (5, 0), (6, 4)])
+    for sq, v in zip(seqs, par.pmap(judge_config_reuse, seqs)):
+        ctx.tick(24 * (len(sq) + 1), ("config_reuse",) + tuple(sq))
+        for c, e, o in v:
+            ctx.violation(c, {"kind": "config_reuse", "seq": list(sq)}, e, o)
+    ctx.cov["configuration_reuse_histories"] = len(seqs)
     ctx.sample({"kind": "dark_sky", "q": q})
     # effect of the cut through the real integral
     nce = 0
@@ -460,6 +514,8 @@ def replay(case):
         return judge_geometry(case["p"])[0]
     if k == "dark":
         return judge_darksky(case["q"])[0]
+    if k == "config_reuse":
+        return judge_config_reuse(tuple(case["seq"]))
     if k == "dkseq":
         return judge_darksky_sequence(tuple(case["order"]))
     if k == "cut_history":
